@@ -19,6 +19,18 @@ import Driver.Bundle
 import Driver.Util
 import Driver.Interp
 import Driver.Evm
+import Driver.EvmLifecycle
+import Driver.TxValidate
+import Driver.InspectorHooks
+import Driver.Static
+import Driver.HandlerCfg
+import Driver.Frame
+import Driver.Ether
+import Driver.TxGas
+import Driver.OpFees
+import Driver.AccessTx
+import Driver.AccessSets
+import Driver.InspectorWrap
 /-! Line-protocol driver: one request per line on stdin, one reply per line on stdout.
 Stateless components are dispatched on the first token. A stateful component `X` adds a field
 `x : Driver.X.St := Driver.X.St.init` to `DState`, resets it on `begin x …` and threads it through
@@ -37,6 +49,13 @@ structure DState where
   bundle : Driver.Bundle.St := Driver.Bundle.St.init
   interp : Driver.Interp.St := Driver.Interp.St.init
   evm : Driver.Evm.St := Driver.Evm.St.init
+  lc : Driver.EvmLifecycle.St := Driver.EvmLifecycle.St.init
+  txv : Driver.TxValidate.St := {}
+  hooks : Driver.InspectorHooks.St := Driver.InspectorHooks.St.init
+  hcfg : Driver.HandlerCfg.St := Driver.HandlerCfg.St.init
+  frame : Driver.Frame.St := Driver.Frame.St.init
+  ether : Driver.Ether.St := Driver.Ether.St.init
+  acc : Driver.AccessSets.St := Driver.AccessSets.St.init
   -- stateful component states go here
 
 def step (st : DState) (line : String) : DState × String :=
@@ -73,6 +92,29 @@ def step (st : DState) (line : String) : DState × String :=
   | "interp" :: r => (st, Driver.Interp.handleStateless r)
   | "begin" :: "evm" :: r => let (s, o) := Driver.Evm.begin r; ({ st with evm := s }, o)
   | "evm" :: r => let (s, o) := Driver.Evm.handle st.evm r; ({ st with evm := s }, o)
+  | "begin" :: "lc" :: r => let (s, out) := Driver.EvmLifecycle.begin r; ({ st with lc := s }, out)
+  | "lc" :: r => let (s, out) := Driver.EvmLifecycle.handle st.lc r; ({ st with lc := s }, out)
+  | "txv" :: r => (st, TxValidate.handle r)
+  | "begin" :: "noeff" :: r => let (s, out) := TxValidate.handleBegin r; ({ st with txv := s }, out)
+  | "ne" :: r => let (s, out) := TxValidate.handleNe st.txv r; ({ st with txv := s }, out)
+  | "begin" :: "hooks" :: r => let (s, o) := Driver.InspectorHooks.begin r; ({ st with hooks := s }, o)
+  | "hk" :: r => let (s, o) := Driver.InspectorHooks.handle st.hooks r; ({ st with hooks := s }, o)
+  | "static" :: r => (st, Driver.Static.handle r)
+  | "begin" :: "hcfg" :: r => let (s, out) := Driver.HandlerCfg.begin st.hcfg r; ({ st with hcfg := s }, out)
+  | "hcfg-build" :: r => let (s, out) := Driver.HandlerCfg.buildLine st.hcfg r; ({ st with hcfg := s }, out)
+  | "hcfg" :: r => let (s, out) := Driver.HandlerCfg.handle st.hcfg r; ({ st with hcfg := s }, out)
+  | "begin" :: "frame" :: r => let (s, out) := Driver.Frame.begin r; ({ st with frame := s }, out)
+  | "frame" :: r => let (s, out) := Driver.Frame.handle st.frame r; ({ st with frame := s }, out)
+  | "begin" :: "ether" :: r => let (s, o) := Driver.Ether.begin r; ({ st with ether := s }, o)
+  | "e" :: r => let (s, o) := Driver.Ether.handle st.ether r; ({ st with ether := s }, o)
+  | "etx" :: r => (st, Driver.Ether.etx r)
+  | "txgas" :: r => (st, TxGas.handle r)
+  | "opfee" :: r => (st, OpFees.handleOpfee r)
+  | "optx" :: r => (st, OpFees.handleOptx r)
+  | "acctx" :: r => (st, AccessTx.handle r)
+  | "begin" :: "acc" :: r => let (s, out) := Driver.AccessSets.begin r; ({ st with acc := s }, out)
+  | "a" :: r => let (s, out) := Driver.AccessSets.handle st.acc r; ({ st with acc := s }, out)
+  | "inspwrap" :: r => (st, InspectorWrap.handle r)
   | _ => (st, "bad-op")
 
 partial def loop (hin hout : IO.FS.Stream) (st : DState) : IO Unit := do
